@@ -4,7 +4,7 @@ use vglue::case::{GCase, Part};
 use crate::pipe::*;
 use debruijn::compression::*;
 use debruijn::*;
-use vcommon::families::{catalogue, Space};
+use vcommon::families::{catalogue, Seg, Space};
 use vcommon::refmodel::*;
 use vcommon::report::Report;
 use vcommon::seq::*;
@@ -20,14 +20,15 @@ pub fn plan(quick: bool) -> Vec<Part> {
     let (l5, p5, t5) = if quick { (8, 5, 7) } else { (11, 6, 9) };
     let (l6, p6) = if quick { (9, 0) } else { (11, 6) };
     v.push(Part::new("C02", "R1+RT", 4, Space::singles(4, l4).plus(Space::thresholds(4, t4))).dim("labels", &[0]));
-    v.push(Part::new("C02", "R2", 4, Space::pairs(4, p4)).dim("labels", &[0, 1]));
+    v.push(Part::new("C02", "R2", 4, if quick { Space::pairs(4, p4) } else { Space::pairs(4, 5).plus(Space { segs: vec![Seg::Pair(6, 4), Seg::Pair(6, 5)] }) }).dim("labels", &[0, 1]));
     v.push(Part::new("C02", "R1+RT", 5, Space::singles(5, l5).plus(Space::thresholds(5, t5))).dim("labels", &[0]));
     if !quick {
-        v.push(Part::new("C02", "R2", 5, Space::pairs(5, p5)).dim("labels", &[0, 1]));
+        v.push(Part::new("C02", "R2", 5, Space { segs: vec![Seg::Pair(5, 5), Seg::Pair(6, 5)] }).dim("labels", &[0, 1]));
+        let _ = p5;
     }
     v.push(Part::new("C02", "R1", 6, Space::singles(6, l6)).dim("labels", &[0]));
     if p6 > 0 {
-        v.push(Part::new("C02", "R2", 6, Space::pairs(6, p6)).dim("labels", &[0, 1]));
+        v.push(Part::new("C02", "R2", 6, Space { segs: vec![Seg::Pair(6, 6)] }).dim("labels", &[1]));
     }
     if !quick {
         v.push(Part::new("C02", "R3", 4, Space::triples(4, 4)).dim("labels", &[0, 1]));
